@@ -226,6 +226,15 @@ func resolve(v ssa.Value) ssa.Value {
 						v = st[0].Val
 						continue
 					}
+				case *ssa.FieldAddr:
+					// a field of a local struct that bundles values (staged := stagedFile{file: tmp, name: tmp.Name()}):
+					// written once in the whole package, in this function, before the read
+					if al, ok := a.X.(*ssa.Alloc); ok {
+						if st := singleFieldStore(al, a.Field); st != nil {
+							v = st.Val
+							continue
+						}
+					}
 				case *ssa.FreeVar:
 					if b := freeVarBinding(a); b != nil {
 						if al, ok := b.(*ssa.Alloc); ok {
@@ -608,6 +617,10 @@ func returnsNilError(r *ssa.Return) bool {
 		return true
 	}
 	if u, ok := last.(*ssa.UnOp); ok && u.Op == token.MUL {
+		// a package-level sentinel (var errFoo = errors.New("...")): set once, at initialisation, to a non-nil error
+		if g, isG := u.X.(*ssa.Global); isG && sentinelError(g) {
+			return false
+		}
 		if al := allocOf(u.X); al != nil {
 			var lastStore *ssa.Store
 			for _, in := range r.Block().Instrs {
@@ -987,4 +1000,124 @@ func liftParams(L *Loaded, scope []*ssa.Function, fn *ssa.Function, terms []stri
 		}
 	}
 	return uniq(out)
+}
+
+// sentinelError: a package-level error variable that is stored exactly once, in the package initialiser, with the result of
+// a call (errors.New, fmt.Errorf): never nil at run time.
+func sentinelError(g *ssa.Global) bool {
+	if g.Pkg == nil || g.Referrers() != nil {
+		// (globals have no referrer lists in go/ssa: scan the package)
+	}
+	n, ok := 0, false
+	for _, m := range g.Pkg.Members {
+		fn, isFn := m.(*ssa.Function)
+		if !isFn {
+			continue
+		}
+		for _, f := range withClosures(fn) {
+			for _, b := range f.Blocks {
+				for _, in := range b.Instrs {
+					if st, isSt := in.(*ssa.Store); isSt && st.Addr == ssa.Value(g) {
+						n++
+						if _, isCall := st.Val.(*ssa.Call); isCall && fn.Name() == "init" {
+							ok = true
+						}
+						if mi, isMI := st.Val.(*ssa.MakeInterface); isMI && fn.Name() == "init" {
+							if _, isCall := mi.X.(*ssa.Call); isCall {
+								ok = true
+							}
+						}
+					}
+				}
+			}
+		}
+	}
+	return n == 1 && ok
+}
+
+var fieldStoreCount = map[string]int{}
+var fieldStoreCounted = map[*ssa.Package]bool{}
+
+// singleFieldStore: the one store into field #f of the local struct al, provided no other store into that field (of that
+// struct type) exists anywhere in the package - then a read of the field anywhere sees that value.
+func singleFieldStore(al *ssa.Alloc, f int) *ssa.Store {
+	fn := al.Parent()
+	if fn == nil || fn.Pkg == nil {
+		return nil
+	}
+	if !fieldStoreCounted[fn.Pkg] {
+		fieldStoreCounted[fn.Pkg] = true
+		var scan func(g *ssa.Function)
+		scan = func(g *ssa.Function) {
+			for _, b := range g.Blocks {
+				for _, in := range b.Instrs {
+					if st, ok := in.(*ssa.Store); ok {
+						if fa, ok := st.Addr.(*ssa.FieldAddr); ok {
+							fieldStoreCount[fn.Pkg.Pkg.Path()+"|"+fieldKey(fa)]++
+						}
+					}
+				}
+			}
+			for _, a := range g.AnonFuncs {
+				scan(a)
+			}
+		}
+		for _, m := range fn.Pkg.Members {
+			switch x := m.(type) {
+			case *ssa.Function:
+				scan(x)
+			case *ssa.Type:
+				if nt, ok := x.Type().(*types.Named); ok {
+					for i := 0; i < nt.NumMethods(); i++ {
+						if mf := fn.Prog.FuncValue(nt.Method(i)); mf != nil {
+							scan(mf)
+						}
+					}
+				}
+			}
+		}
+	}
+	var found *ssa.Store
+	if al.Referrers() == nil {
+		return nil
+	}
+	// `x := T{...}` with an addressable x: the literal is built in a temporary and copied into x as a whole
+	if whole := storesTo(al); len(whole) == 1 {
+		if ld, ok := whole[0].Val.(*ssa.UnOp); ok && ld.Op == token.MUL {
+			if tmp, ok := ld.X.(*ssa.Alloc); ok && tmp != al && tmp.Comment == "complit" {
+				// no field of x itself is written afterwards in this package (counted below through the literal's stores)
+				direct := 0
+				for _, r := range *al.Referrers() {
+					if fa, ok := r.(*ssa.FieldAddr); ok && fa.Field == f && fa.Referrers() != nil {
+						for _, rr := range *fa.Referrers() {
+							if st, ok := rr.(*ssa.Store); ok && st.Addr == ssa.Value(fa) {
+								direct++
+							}
+						}
+					}
+				}
+				if direct == 0 {
+					return singleFieldStore(tmp, f)
+				}
+			}
+		}
+	}
+	for _, r := range *al.Referrers() {
+		fa, ok := r.(*ssa.FieldAddr)
+		if !ok || fa.Field != f || fa.Referrers() == nil {
+			continue
+		}
+		for _, rr := range *fa.Referrers() {
+			if st, ok := rr.(*ssa.Store); ok && st.Addr == ssa.Value(fa) {
+				if found != nil {
+					return nil
+				}
+				found = st
+				if fieldStoreCount[fn.Pkg.Pkg.Path()+"|"+fieldKey(fa)] != 1 {
+					return nil
+				}
+			}
+		}
+	}
+	return found
 }
